@@ -19,6 +19,7 @@
 -/
 import Bnum.Lemmas.Random
 import Bnum.Lemmas.RandomD
+import Bnum.Lemmas.C20Extra
 namespace Bnum.Props.C20
 open Bnum Bnum.Rand
 
@@ -671,5 +672,336 @@ theorem d_uniform_new_eq_spec (hk : 1 ≤ k) (hn : 1 ≤ n) (hok : StreamOK s)
   | .ok d, href => exact ⟨d, rfl, by rw [drawViewD_eq href, hs]⟩
 
 end digit
+
+/-! ### 8. Exclusive entry points in closed form; exactly one word per value; END-TO-END preimage
+    counts.  Section 3 counts the words satisfying the closed-form predicate of a non-full range.
+    Here the count is stated for the SAMPLERS THEMSELVES, full range included:
+    `wordCount f k n x` = number of RNG words `v < 2^BITS` such that the sampler `f`, run on the
+    one-word stream holding the `BYTES` little-endian bytes of `v`, returns `x` (i.e. accepts `v`
+    and maps it to `x`; a rejected word exhausts the one-word stream and counts for no value). -/
+
+/-- `sample_single(low, high)` / `gen_range(low..high)` on a non-empty range IS
+    `sample_single_inclusive(low, high - 1)` (`high - ONE` cannot overflow) -/
+theorem sample_single_closed_form {signed dbg : Bool} {w n low high : Nat} {s : Stream}
+    (hW : 2 ≤ w * n) (hl : low < M w n) (hh : high < M w n)
+    (hlt : val signed (M w n) low < val signed (M w n) high) :
+    sampleSingle signed dbg w n low high s =
+      sampleSingleInclusive signed dbg w n low (wrappingSub (M w n) high 1) s ∧
+    wrappingSub (M w n) high 1 < M w n ∧
+    val signed (M w n) (wrappingSub (M w n) high 1) = val signed (M w n) high - 1 := by
+  have h4 : 4 ≤ M w n := by
+    have := Nat.pow_le_pow_right (n := 2) (by decide) hW; simpa [M] using this
+  obtain ⟨_, b, c, _⟩ := subOne_eq (dbg := dbg) (M_even' (by omega)) h4 hl hh (val_lt_iff.mpr hlt)
+  exact ⟨sampleSingle_eq hW hl hh (val_lt_iff.mpr hlt), b, c⟩
+
+/-- `Uniform::new(low, high)` builds the sampler of `Uniform::new_inclusive(low, high - 1)` -/
+theorem uniform_new_closed_form {signed dbg : Bool} {w n low high : Nat}
+    (hW : 2 ≤ w * n) (hl : low < M w n) (hh : high < M w n)
+    (hlt : val signed (M w n) low < val signed (M w n) high) :
+    Rand.new signed dbg w n low high =
+      Rand.newInclusive signed dbg w n low (wrappingSub (M w n) high 1) ∧
+    ∀ s, uniformNewSample signed dbg w n low high s =
+      uniformNewInclusiveSample signed dbg w n low (wrappingSub (M w n) high 1) s := by
+  have e := new_eq (dbg := dbg) hW hl hh (val_lt_iff.mpr hlt)
+  exact ⟨e, fun s => by rw [uniformNewSample, uniformNewInclusiveSample, e]⟩
+
+example : sampleSingle true true 8 2 0xfffd 4 [0xfd, 0xff, 0x00, 0x80] =
+    sampleSingleInclusive true true 8 2 0xfffd 3 [0xfd, 0xff, 0x00, 0x80] := by decide
+example : wrappingSub (M 8 2) 0 1 = 0xffff := by decide
+
+/-- THE FULL RANGE (`range` wraps to zero): every word is accepted and returned as it is -/
+theorem full_range_identity {signed dbg : Bool} {k n low high : Nat} {b t : Stream}
+    (hk : 1 ≤ k) (hn : 1 ≤ n)
+    (hle : val signed (M (8 * k) n) low ≤ val signed (M (8 * k) n) high)
+    (h0 : rangeOf (M (8 * k) n) low high = 0) (hb : b.length = n * k) :
+    sampleSingleInclusive signed dbg (8 * k) n low high (b ++ t) = .ok (some (leValue b, t)) ∧
+    uniformNewInclusiveSample signed dbg (8 * k) n low high (b ++ t) = .ok (some (leValue b, t)) := by
+  have hW : 1 ≤ 8 * k * n := by have := Nat.mul_le_mul (Nat.mul_le_mul_left 8 hk) hn; omega
+  rw [sample_single_inclusive_closed_form hW hle, uniform_new_inclusive_closed_form hW hle,
+    if_pos h0, if_pos h0, genVal_append hb]
+  exact ⟨rfl, rfl⟩
+
+example : rangeOf (M 8 3) 0x800000 0x7fffff = 0 := by decide
+
+/-- EXACTLY ONE WORD PER VALUE: the `BYTES`-byte word on which `Standard` (hence a full-range
+    draw) returns `v` exists (`standard_surjective`) and is unique -/
+theorem standard_word_unique {k n v : Nat} {s s' : Stream} (hs : StreamOK s) (hs' : StreamOK s')
+    (hl : s.length = n * k) (hl' : s'.length = n * k)
+    (h : genVal (8 * k) n s = some (v, [])) (h' : genVal (8 * k) n s' = some (v, [])) : s = s' := by
+  have := genVal_word_unique hs hs' h h'
+  rwa [List.take_of_length_le (by omega), List.take_of_length_le (by omega)] at this
+
+theorem standard_bijective (k n v : Nat) (hv : v < M (8 * k) n) :
+    ∃ s, (StreamOK s ∧ s.length = n * k ∧ genVal (8 * k) n s = some (v, [])) ∧
+      ∀ s', StreamOK s' ∧ s'.length = n * k ∧ genVal (8 * k) n s' = some (v, []) → s' = s := by
+  obtain ⟨s, a, b, c⟩ := standard_surjective k n v hv
+  exact ⟨s, ⟨a, b, c⟩, fun s' ⟨a', b', c'⟩ => standard_word_unique a' a b' b c' c⟩
+
+example : genVal 16 2 [1, 2, 3, 4] = some (0x04030201, []) := by decide
+
+/-- END-TO-END PREIMAGE COUNT, `sample_single_inclusive` / `gen_range(low..=high)`: every
+    `x ∈ [low, high]` is returned for exactly `1` word when the range is everything, and for
+    exactly `(zone+1)/range` words otherwise — independent of `x` -/
+theorem sample_single_inclusive_word_count {signed dbg : Bool} {k n low high x : Nat}
+    (hk : 1 ≤ k) (hn : 1 ≤ n) (hl : low < M (8 * k) n) (hh : high < M (8 * k) n)
+    (hle : val signed (M (8 * k) n) low ≤ val signed (M (8 * k) n) high) (hx : x < M (8 * k) n)
+    (hin : val signed (M (8 * k) n) low ≤ val signed (M (8 * k) n) x ∧
+      val signed (M (8 * k) n) x ≤ val signed (M (8 * k) n) high) :
+    wordCount (sampleSingleInclusive signed dbg (8 * k) n low high) k n x =
+      if rangeOf (M (8 * k) n) low high = 0 then 1
+      else (zoneSingle (8 * k * n) (rangeOf (M (8 * k) n) low high) + 1) /
+        rangeOf (M (8 * k) n) low high := by
+  have hW : 1 ≤ 8 * k * n := by have := Nat.mul_le_mul (Nat.mul_le_mul_left 8 hk) hn; omega
+  refine wordCount_closed hk hn hl hh hle hx hin (fun h0 => ?_)
+    (fun s => sample_single_inclusive_closed_form hW hle)
+  have hr := rangeOf_lt (low := low) (high := high) (M_pos (8 * k) n)
+  obtain ⟨a, b, _⟩ := zone_single_ok h0 (M_eq_two_pow (8 * k) n ▸ hr)
+  exact ⟨M_eq_two_pow (8 * k) n ▸ a, b⟩
+
+/-- same for `Uniform::new_inclusive(low, high).sample` (the exact zone) -/
+theorem uniform_new_inclusive_word_count {signed dbg : Bool} {k n low high x : Nat}
+    (hk : 1 ≤ k) (hn : 1 ≤ n) (hl : low < M (8 * k) n) (hh : high < M (8 * k) n)
+    (hle : val signed (M (8 * k) n) low ≤ val signed (M (8 * k) n) high) (hx : x < M (8 * k) n)
+    (hin : val signed (M (8 * k) n) low ≤ val signed (M (8 * k) n) x ∧
+      val signed (M (8 * k) n) x ≤ val signed (M (8 * k) n) high) :
+    wordCount (uniformNewInclusiveSample signed dbg (8 * k) n low high) k n x =
+      if rangeOf (M (8 * k) n) low high = 0 then 1
+      else (zoneExact (M (8 * k) n) (rangeOf (M (8 * k) n) low high) + 1) /
+        rangeOf (M (8 * k) n) low high := by
+  have hW : 1 ≤ 8 * k * n := by have := Nat.mul_le_mul (Nat.mul_le_mul_left 8 hk) hn; omega
+  refine wordCount_closed hk hn hl hh hle hx hin (fun h0 => ?_)
+    (fun s => uniform_new_inclusive_closed_form hW hle)
+  have hr := rangeOf_lt (low := low) (high := high) (M_pos (8 * k) n)
+  obtain ⟨a, b, _⟩ := zone_exact_ok h0 hr
+  exact ⟨a, b⟩
+
+/-- a value outside `[low, high]` has NO preimage (both samplers) -/
+theorem word_count_outside {signed dbg : Bool} {k n low high x : Nat}
+    (hk : 1 ≤ k) (hn : 1 ≤ n) (hl : low < M (8 * k) n) (hh : high < M (8 * k) n)
+    (hout : ¬ (val signed (M (8 * k) n) low ≤ val signed (M (8 * k) n) x ∧
+      val signed (M (8 * k) n) x ≤ val signed (M (8 * k) n) high)) :
+    wordCount (sampleSingleInclusive signed dbg (8 * k) n low high) k n x = 0 ∧
+    wordCount (uniformNewInclusiveSample signed dbg (8 * k) n low high) k n x = 0 :=
+  ⟨wordCount_outside (signed := signed) (low := low) (high := high) hout
+      (fun _ _ _ hok h => (sample_single_inclusive_in_range hk hn hok hl hh h).2),
+   wordCount_outside (signed := signed) (low := low) (high := high) hout
+      (fun _ _ _ hok h => (uniform_new_inclusive_in_range hk hn hok hl hh h).2)⟩
+
+/-- UNBIASED BY CONSTRUCTION, inclusive forms: any two values of `[low, high]` have the same
+    number of preimages, and at least one -/
+theorem inclusive_unbiased {signed dbg : Bool} {k n low high x y : Nat}
+    (hk : 1 ≤ k) (hn : 1 ≤ n) (hl : low < M (8 * k) n) (hh : high < M (8 * k) n)
+    (hx : x < M (8 * k) n) (hy : y < M (8 * k) n)
+    (hinx : val signed (M (8 * k) n) low ≤ val signed (M (8 * k) n) x ∧
+      val signed (M (8 * k) n) x ≤ val signed (M (8 * k) n) high)
+    (hiny : val signed (M (8 * k) n) low ≤ val signed (M (8 * k) n) y ∧
+      val signed (M (8 * k) n) y ≤ val signed (M (8 * k) n) high) :
+    (wordCount (sampleSingleInclusive signed dbg (8 * k) n low high) k n x =
+      wordCount (sampleSingleInclusive signed dbg (8 * k) n low high) k n y ∧
+     1 ≤ wordCount (sampleSingleInclusive signed dbg (8 * k) n low high) k n x) ∧
+    (wordCount (uniformNewInclusiveSample signed dbg (8 * k) n low high) k n x =
+      wordCount (uniformNewInclusiveSample signed dbg (8 * k) n low high) k n y ∧
+     1 ≤ wordCount (uniformNewInclusiveSample signed dbg (8 * k) n low high) k n x) := by
+  have hle : val signed (M (8 * k) n) low ≤ val signed (M (8 * k) n) high := by omega
+  have hr := rangeOf_lt (low := low) (high := high) (M_pos (8 * k) n)
+  rw [sample_single_inclusive_word_count hk hn hl hh hle hx hinx,
+    sample_single_inclusive_word_count hk hn hl hh hle hy hiny,
+    uniform_new_inclusive_word_count hk hn hl hh hle hx hinx,
+    uniform_new_inclusive_word_count hk hn hl hh hle hy hiny]
+  refine ⟨⟨rfl, ?_⟩, rfl, ?_⟩
+  · split
+    · exact Nat.le_refl 1
+    · next h0 => exact (zone_single_ok h0 (M_eq_two_pow (8 * k) n ▸ hr)).2.2
+  · split
+    · exact Nat.le_refl 1
+    · next h0 => exact (zone_exact_ok h0 hr).2.2
+
+/-- UNBIASED BY CONSTRUCTION, exclusive forms (`sample_single`, `gen_range(low..high)`,
+    `Uniform::new`): any two values of `[low, high)` have the same number of preimages, ≥ 1 -/
+theorem exclusive_unbiased {signed dbg : Bool} {k n low high x y : Nat}
+    (hk : 1 ≤ k) (hn : 1 ≤ n) (hl : low < M (8 * k) n) (hh : high < M (8 * k) n)
+    (hx : x < M (8 * k) n) (hy : y < M (8 * k) n)
+    (hinx : val signed (M (8 * k) n) low ≤ val signed (M (8 * k) n) x ∧
+      val signed (M (8 * k) n) x < val signed (M (8 * k) n) high)
+    (hiny : val signed (M (8 * k) n) low ≤ val signed (M (8 * k) n) y ∧
+      val signed (M (8 * k) n) y < val signed (M (8 * k) n) high) :
+    (wordCount (sampleSingle signed dbg (8 * k) n low high) k n x =
+      wordCount (sampleSingle signed dbg (8 * k) n low high) k n y ∧
+     1 ≤ wordCount (sampleSingle signed dbg (8 * k) n low high) k n x) ∧
+    (wordCount (genRange signed dbg (8 * k) n low high) k n x =
+      wordCount (genRange signed dbg (8 * k) n low high) k n y ∧
+     1 ≤ wordCount (genRange signed dbg (8 * k) n low high) k n x) ∧
+    (wordCount (uniformNewSample signed dbg (8 * k) n low high) k n x =
+      wordCount (uniformNewSample signed dbg (8 * k) n low high) k n y ∧
+     1 ≤ wordCount (uniformNewSample signed dbg (8 * k) n low high) k n x) := by
+  have hW : 2 ≤ 8 * k * n := by have := Nat.mul_le_mul (Nat.mul_le_mul_left 8 hk) hn; omega
+  have hlt : val signed (M (8 * k) n) low < val signed (M (8 * k) n) high := by omega
+  obtain ⟨_, hb, hc⟩ := sample_single_closed_form (dbg := dbg) (s := []) hW hl hh hlt
+  have e1 : sampleSingle signed dbg (8 * k) n low high =
+      sampleSingleInclusive signed dbg (8 * k) n low (wrappingSub (M (8 * k) n) high 1) :=
+    funext fun s => (sample_single_closed_form hW hl hh hlt).1
+  have e2 : genRange signed dbg (8 * k) n low high = sampleSingle signed dbg (8 * k) n low high :=
+    funext fun s => genRange_eq ..
+  have e3 : uniformNewSample signed dbg (8 * k) n low high =
+      uniformNewInclusiveSample signed dbg (8 * k) n low (wrappingSub (M (8 * k) n) high 1) :=
+    funext fun s => (uniform_new_closed_form hW hl hh hlt).2 s
+  have := inclusive_unbiased (signed := signed) (dbg := dbg) hk hn hl hb hx hy
+    (by rw [hc]; omega) (by rw [hc]; omega)
+  rw [e2, e1, e3]
+  exact ⟨this.1, this.1, this.2⟩
+
+/-- `gen_range(low..=high)` likewise (it is `sample_single_inclusive`) -/
+theorem gen_range_inclusive_word_count_eq (signed dbg : Bool) (k n low high x : Nat) :
+    wordCount (genRangeInclusive signed dbg (8 * k) n low high) k n x =
+      wordCount (sampleSingleInclusive signed dbg (8 * k) n low high) k n x := by
+  rw [show genRangeInclusive signed dbg (8 * k) n low high =
+    sampleSingleInclusive signed dbg (8 * k) n low high from funext fun s => genRangeInclusive_eq ..]
+
+-- i8x1, [-3, 3] through the sampler itself: 36 of the 256 words return -1, 36 return 3, none returns 4;
+-- the full range: one word per value
+example : wordCount (sampleSingleInclusive true true 8 1 0xfd 3) 1 1 0xff = 36 := by decide
+example : wordCount (uniformNewInclusiveSample true false 8 1 0xfd 3) 1 1 3 = 36 := by decide
+example : wordCount (sampleSingleInclusive true true 8 1 0xfd 3) 1 1 4 = 0 := by decide
+example : wordCount (sampleSingle true true 8 1 0xfd 4) 1 1 0 = 36 := by decide
+example : wordCount (sampleSingleInclusive false true 8 1 0 0xff) 1 1 0x5a = 1 := by decide
+
+/-- digit level: the digit-level samplers (results read as patterns, `viewD`) have the word counts of
+    the value-level samplers, so `inclusive_unbiased` / `exclusive_unbiased` / `*_word_count` hold
+    for the digit-level code -/
+theorem d_word_count_eq {signed dbg : Bool} {k n x : Nat} {low high : List Nat}
+    (hk : 1 ≤ k) (hn : 1 ≤ n) (hl : WF (8 * k) n low) (hh : WF (8 * k) n high) :
+    wordCount (fun s => RandD.viewD (8 * k) (RandD.sampleSingleInclusive signed dbg (8 * k) n low high s)) k n x =
+      wordCount (sampleSingleInclusive signed dbg (8 * k) n (U (8 * k) low) (U (8 * k) high)) k n x ∧
+    wordCount (fun s => RandD.viewD (8 * k) (RandD.uniformNewInclusiveSample signed dbg (8 * k) n low high s)) k n x =
+      wordCount (uniformNewInclusiveSample signed dbg (8 * k) n (U (8 * k) low) (U (8 * k) high)) k n x ∧
+    wordCount (fun s => RandD.viewD (8 * k) (RandD.sampleSingle signed dbg (8 * k) n low high s)) k n x =
+      wordCount (sampleSingle signed dbg (8 * k) n (U (8 * k) low) (U (8 * k) high)) k n x ∧
+    wordCount (fun s => RandD.viewD (8 * k) (RandD.uniformNewSample signed dbg (8 * k) n low high s)) k n x =
+      wordCount (uniformNewSample signed dbg (8 * k) n (U (8 * k) low) (U (8 * k) high)) k n x :=
+  ⟨wordCount_congr (fun _ hok => (d_sample_single_inclusive_refines hk hn hok hl hh).1),
+   wordCount_congr (fun _ hok => (d_uniform_new_inclusive_refines hk hn hok hl hh).1),
+   wordCount_congr (fun _ hok => (d_sample_single_refines hk hn hok hl hh).1),
+   wordCount_congr (fun _ hok => (d_uniform_new_refines hk hn hok hl hh).1)⟩
+
+example : wordCount (fun s => RandD.viewD 8 (RandD.sampleSingleInclusive true true 8 1 [0xfd] [3] s)) 1 1 0xff
+    = 36 := by decide
+example : wordCount (genRangeInclusive true true 8 1 0xfd 3) 1 1 0xff = 36 := by decide
+
+/-! ### 9. One stored sampler, several draws (`let u = Uniform::new(_inclusive)(low, high);` then
+    `u.sample(rng)` `cnt` times — `Rand.uniformMany`, digit level `RandD.uniformMany`): the stored
+    `range` / `z` are reused by every draw. -/
+
+/-- panics exactly on the empty range, in both build modes; otherwise every one of the `cnt` draws
+    lies in the range (`incl`: `[low, high]`, else `[low, high)`) -/
+theorem uniform_many_in_range {signed dbg incl : Bool} {k n low high cnt : Nat} {s rest : Stream}
+    {xs : List Nat} (hk : 1 ≤ k) (hn : 1 ≤ n) (hok : StreamOK s)
+    (hl : low < M (8 * k) n) (hh : high < M (8 * k) n)
+    (h : uniformMany signed dbg incl (8 * k) n low high cnt s = .ok (some (xs, rest))) :
+    xs.length = cnt ∧ ∀ x ∈ xs, x < M (8 * k) n ∧
+      val signed (M (8 * k) n) low ≤ val signed (M (8 * k) n) x ∧
+      (if incl then val signed (M (8 * k) n) x ≤ val signed (M (8 * k) n) high
+       else val signed (M (8 * k) n) x < val signed (M (8 * k) n) high) := by
+  have hW : 2 ≤ 8 * k * n := by have := Nat.mul_le_mul (Nat.mul_le_mul_left 8 hk) hn; omega
+  cases incl
+  · rcases lt_cases signed (M (8 * k) n) low high with hlt | hlt
+    · have h4 : 4 ≤ M (8 * k) n := by
+        have := Nat.pow_le_pow_right (n := 2) (by decide) hW; simpa [M] using this
+      obtain ⟨_, b, c, d⟩ := subOne_eq (dbg := dbg) (M_even' (by omega)) h4 hl hh hlt
+      rw [uniformMany_exclusive_eq hW hl hh hlt, uniformMany_inclusive_eq (by omega) d] at h
+      obtain ⟨a, e⟩ := sampleMany_in_range (by omega) hl b d cnt s xs rest hok h
+      refine ⟨a, fun x hx => ?_⟩
+      obtain ⟨e1, e2, e3⟩ := e x hx
+      simp only [Bool.false_eq_true, if_false]
+      exact ⟨e1, e2, by omega⟩
+    · rw [uniformMany_panic (by simpa using hlt)] at h; cases h
+  · rcases le_cases signed (M (8 * k) n) low high with hle | hle
+    · rw [uniformMany_inclusive_eq (by omega) hle] at h
+      obtain ⟨a, e⟩ := sampleMany_in_range (by omega) hl hh hle cnt s xs rest hok h
+      refine ⟨a, fun x hx => ?_⟩
+      obtain ⟨e1, e2, e3⟩ := e x hx
+      simp only [if_true]
+      exact ⟨e1, e2, e3⟩
+    · rw [uniformMany_panic (by simpa using hle)] at h; cases h
+
+theorem uniform_many_panic_iff {signed dbg incl : Bool} {k n low high cnt : Nat} {s : Stream}
+    (hk : 1 ≤ k) (hn : 1 ≤ n) (hok : StreamOK s) (hl : low < M (8 * k) n) (hh : high < M (8 * k) n) :
+    uniformMany signed dbg incl (8 * k) n low high cnt s = .panic ↔
+      ¬ (if incl then val signed (M (8 * k) n) low ≤ val signed (M (8 * k) n) high
+         else val signed (M (8 * k) n) low < val signed (M (8 * k) n) high) := by
+  have hW : 2 ≤ 8 * k * n := by have := Nat.mul_le_mul (Nat.mul_le_mul_left 8 hk) hn; omega
+  have hnp : ∀ l h', le signed (M (8 * k) n) l h' = true → l < M (8 * k) n → h' < M (8 * k) n →
+      uniformMany signed dbg true (8 * k) n l h' cnt s ≠ .panic := by
+    intro l h' hle hl' hh' hp
+    obtain ⟨d, e, _⟩ := sampleMany_eq_spec (signed := signed) (dbg := dbg) (by omega) hl' hh'
+      (val_le_iff.mp hle) cnt s hok
+    rw [uniformMany_inclusive_eq (by omega) hle, closedSampler, e] at hp; cases hp
+  cases incl
+  · simp only [Bool.false_eq_true, if_false]
+    rcases lt_cases signed (M (8 * k) n) low high with hlt | hlt
+    · have h4 : 4 ≤ M (8 * k) n := by
+        have := Nat.pow_le_pow_right (n := 2) (by decide) hW; simpa [M] using this
+      obtain ⟨_, b, c, d⟩ := subOne_eq (dbg := dbg) (M_even' (by omega)) h4 hl hh hlt
+      rw [uniformMany_exclusive_eq hW hl hh hlt]
+      exact ⟨fun hp => absurd hp (hnp _ _ d hl b), fun hc => absurd (val_lt_iff.mp hlt) hc⟩
+    · rw [uniformMany_panic (by simpa using hlt)]
+      have : ¬ val signed (M (8 * k) n) low < val signed (M (8 * k) n) high := by
+        rw [← val_lt_iff, hlt]; simp
+      simp [this]
+  · simp only [if_true]
+    rcases le_cases signed (M (8 * k) n) low high with hle | hle
+    · exact ⟨fun hp => absurd hp (hnp _ _ hle hl hh), fun hc => absurd (val_le_iff.mp hle) hc⟩
+    · rw [uniformMany_panic (by simpa using hle)]
+      have : ¬ val signed (M (8 * k) n) low ≤ val signed (M (8 * k) n) high := by
+        rw [← val_le_iff, hle]; simp
+      simp [this]
+
+/-- MODEL = SPEC for `cnt` draws (what the driver prints for `uniform_many`): the Spec's law for
+    one draw, applied `cnt` times to what is left of the stream -/
+theorem uniform_many_eq_spec {signed dbg : Bool} {k n low high cnt : Nat} {s : Stream}
+    (hk : 1 ≤ k) (hn : 1 ≤ n) (hok : StreamOK s) (hl : low < M (8 * k) n) (hh : high < M (8 * k) n)
+    (hle : val signed (M (8 * k) n) low ≤ val signed (M (8 * k) n) high) :
+    ∃ d, uniformMany signed dbg true (8 * k) n low high cnt s = .ok d ∧
+      drawsView signed (M (8 * k) n) s d =
+        Spec.Random.sampleManyInclusive signed (M (8 * k) n) (n * k)
+          (Spec.Random.zoneExact (M (8 * k) n))
+          (val signed (M (8 * k) n) low) (val signed (M (8 * k) n) high) cnt s := by
+  have hW : 1 ≤ 8 * k * n := by have := Nat.mul_le_mul (Nat.mul_le_mul_left 8 hk) hn; omega
+  rw [uniformMany_inclusive_eq hW (val_le_iff.mpr hle)]
+  exact sampleMany_eq_spec hW hl hh hle cnt s hok
+
+theorem uniform_many_exclusive_eq_spec {signed dbg : Bool} {k n low high cnt : Nat} {s : Stream}
+    (hk : 1 ≤ k) (hn : 1 ≤ n) (hok : StreamOK s) (hl : low < M (8 * k) n) (hh : high < M (8 * k) n)
+    (hlt : val signed (M (8 * k) n) low < val signed (M (8 * k) n) high) :
+    ∃ d, uniformMany signed dbg false (8 * k) n low high cnt s = .ok d ∧
+      drawsView signed (M (8 * k) n) s d =
+        Spec.Random.sampleManyInclusive signed (M (8 * k) n) (n * k)
+          (Spec.Random.zoneExact (M (8 * k) n))
+          (val signed (M (8 * k) n) low) (val signed (M (8 * k) n) high - 1) cnt s := by
+  have hW : 2 ≤ 8 * k * n := by have := Nat.mul_le_mul (Nat.mul_le_mul_left 8 hk) hn; omega
+  have h4 : 4 ≤ M (8 * k) n := by
+    have := Nat.pow_le_pow_right (n := 2) (by decide) hW; simpa [M] using this
+  obtain ⟨_, b, c, d⟩ := subOne_eq (dbg := dbg) (M_even' (by omega)) h4 hl hh (val_lt_iff.mpr hlt)
+  rw [uniformMany_exclusive_eq hW hl hh (val_lt_iff.mpr hlt), ← c]
+  exact uniform_many_eq_spec hk hn hok hl b (val_le_iff.mp d)
+
+/-- digit level refines value level: same panic, same exhaustion, same remaining stream, the
+    returned digit lists are well-formed and have the value-level patterns -/
+theorem d_uniform_many_refines {signed dbg incl : Bool} {k n cnt : Nat} {low high : List Nat}
+    {s : Stream} (hk : 1 ≤ k) (hn : 1 ≤ n) (hok : StreamOK s)
+    (hl : WF (8 * k) n low) (hh : WF (8 * k) n high) :
+    RandD.viewDs (8 * k) (RandD.uniformMany signed dbg incl (8 * k) n low high cnt s) =
+      Rand.uniformMany signed dbg incl (8 * k) n (U (8 * k) low) (U (8 * k) high) cnt s ∧
+    ∀ xs rest, RandD.uniformMany signed dbg incl (8 * k) n low high cnt s = .ok (some (xs, rest)) →
+      ∀ x ∈ xs, WF (8 * k) n x :=
+  (RandD.uniformMany_ref hk hn hok hl hh).view
+
+-- two draws from one stored sampler on [-3, 3] (16 bits): the first word 0x9249 is rejected
+example : uniformMany true true true 8 2 0xfffd 3 2 [0x49, 0x92, 0x00, 0x80, 0xff, 0x7f] =
+    .ok (some ([0, 0], [])) := by decide
+example : RandD.uniformMany true true false 8 2 [0xfd, 0xff] [4, 0] 2 [0x49, 0x92, 0x00, 0x80, 0, 0] =
+    .ok (some ([[0, 0], [0xfd, 0xff]], [])) := by decide
+example : uniformMany false true false 8 2 4 4 2 [1, 2, 3, 4] = .panic := by decide
+example : Spec.Random.sampleManyInclusive true (M 8 2) 2 (Spec.Random.zoneExact (M 8 2)) (-3) 3 2
+    [0x49, 0x92, 0x00, 0x80, 0xff, 0x7f] = some ([0, 0], 6) := by decide
 
 end Bnum.Props.C20
